@@ -87,7 +87,7 @@ pub fn explore(t: u8, l: usize, id: usize, run: &dyn Fn(&[u8], u8) -> (String, u
             return;
         }
         budget.set(budget.get() - 1);
-        let ws: String = w.iter().map(|x| (b'a' + *x) as char).collect();
+        let ws: String = w.iter().map(|x| format!("{:02x}", x)).collect(); // two hex digits per token index
         let mut reached_end = false;
         let out = std::io::stdout();
         for mode in 0..3u8 {
@@ -115,6 +115,11 @@ pub fn explore(t: u8, l: usize, id: usize, run: &dyn Fn(&[u8], u8) -> (String, u
     rec(&mut vec![], t, l, id, run, &budget);
 }
 "#;
+
+/// Inverse of the word encoding of the compiled runner (two hex digits per token index).
+fn decode_word(s: &str) -> Vec<u8> {
+    s.as_bytes().chunks(2).map(|c| u8::from_str_radix(std::str::from_utf8(c).unwrap_or("0"), 16).unwrap_or(0)).collect()
+}
 
 pub struct RealModule {
     /// emitted text
@@ -371,7 +376,7 @@ pub fn run_real(mods: &[RealModule], tag: &str) -> RealResults {
                 let last = trace.lines().rev().find(|l| l.starts_with("T|")).map(|l| l.to_string());
                 let hang = last.and_then(|l| {
                     let p: Vec<&str> = l.split('|').collect();
-                    Some((p.get(1)?.parse::<usize>().ok()?, p.get(2)?.bytes().map(|c| c - b'a').collect::<Vec<u8>>(), p.get(3)?.parse::<u8>().ok()?))
+                    Some((p.get(1)?.parse::<usize>().ok()?, decode_word(p.get(2)?), p.get(3)?.parse::<u8>().ok()?))
                 });
                 match hang {
                     Some(h) if !culprits.iter().any(|c| c.0 == h.0) => culprits.push(h),
@@ -413,7 +418,7 @@ pub fn run_real(mods: &[RealModule], tag: &str) -> RealResults {
                 continue;
             }
             runs += 1;
-            obs[id].insert((w.bytes().map(|x| x - b'a').collect(), mode), Obs { desc: d.to_string(), count: c, polled_after_end: a == "1" });
+            obs[id].insert((decode_word(w), mode), Obs { desc: d.to_string(), count: c, polled_after_end: a == "1" });
         }
     }
     RealResults { obs, compile_errors, hangs, capped, compile_s, run_s, runs }
